@@ -277,6 +277,6 @@ Section Unconditional.
     edestruct (candidates_static_ok sub hasm chk sub_fresh) as [cs Hc]; [eassumption..|].
     rewrite (lookup_unfold _ _ _ _ _ _ _ Hc).
     destruct (sort_desc cs) as [|c1 rest]; [split; discriminate|].
-    unfold rank_outcome. destruct (filter _ rest); split; discriminate.
+    unfold rank_outcome. destruct (grp _ rest); split; discriminate.
   Qed.
 End Unconditional.
